@@ -371,6 +371,10 @@ def run(chk):
     from rules import C04
 
     C04.bodiless(chk, repo, rule="C05.bodiless")
+    # ---- C05.errtext: the 400 can always be built (shared with C10) ----
+    from rules import C10 as _C10
+
+    _C10.message_text_rule(chk, repo, rule="C05.errtext")
     # ---- C05.err400 ------------------------------------------------------------------------------------------------------------
     C01.err400(chk, repo, folder, errs, rule="C05.err400")
     chk.extra["effects_stats"] = dict(eff.stats)
